@@ -160,6 +160,7 @@ static Plan gen_C01(uint64_t seed, Rng &r) {
         NodeCfg n = rnd_node(r, {GLUE_BARE, GLUE_LEGACY, GLUE_DARWIN, GLUE_DARWIN});
         n.side_esp32 = r.chance(0.7); n.side_classifier = true;
         if (r.chance(0.15)) n.failmask = (uint32_t)r.next() & G_ALL;
+        if (i == 0 && r.chance(0.03)) n.mtu = (uint32_t)r.pickl({16384, 32767, 32768, 32803, 32804, 40000, 65535, 65536}); // beyond the stated MTU range: here only "no crash, no sanitizer report" is judged
         p.nodes.push_back(n);
     }
     p.family = (int)r.below(4);
@@ -169,6 +170,7 @@ static Plan gen_C01(uint64_t seed, Rng &r) {
     else if (p.family == 1) { m.raw = 3; m.stray = 6; frate = 0.8; }                           // mutated valid sessions
     else if (p.family == 2) { m.emit = 20; m.discover = 20; m.qlt = 10; m.query = 6; frate = 0.9; } // counters
     else { m.stall = 4; m.tick = 6; m.partition = 1; m.attr = 2; frate = 0.4; }
+    if (p.nodes[0].mtu > 9216) { m.fetch = 10; m.qlt = 10; frate = 0.1; p.nodes.resize(1); }
     int nops = (int)r.range(5, p.family == 0 ? 120 : 60);
     int mapper = (int)r.below(3);
     for (int i = 0; i < nops; i++) {
@@ -651,8 +653,10 @@ static Plan gen_C11(uint64_t seed, Rng &r) {
     Plan p = base_plan("C11", seed, r);
     NodeCfg n = rnd_node(r, {GLUE_DARWIN});
     if (r.chance(0.6)) n.mtu = (uint32_t)r.pickl({1500, 1500, 4096, 9216});
+    bool huge = r.chance(0.015);
+    if (huge) { n.mtu = (uint32_t)r.pickl({65535, 65536, 60042}); n.proc_us = 0; }
     p.nodes.push_back(n);
-    if (r.chance(0.2)) p.nodes.push_back(rnd_node(r, {GLUE_DARWIN}));
+    if (!huge && r.chance(0.2)) p.nodes.push_back(rnd_node(r, {GLUE_DARWIN}));
     if (r.chance(0.25)) { p.family = 1; keepalive_ops(r, p, (int)p.nodes.size()); p.tail_ms = (uint32_t)r.range(500, 3000); return p; }
     int mapper = (int)r.below(3);
     uint16_t gen = rnd_gen(r);
@@ -667,7 +671,8 @@ static Plan gen_C11(uint64_t seed, Rng &r) {
             if (r.chance(0.1)) mapper = (int)r.below(3);
             Op o = mk(OP_DISCOVER, rnd_dt(r), {mapper, r.chance(0.1) ? (r.chance(0.5) ? 100 + (int64_t)r.below(p.nodes.size()) : 300 + r.range(0, 5)) : rnd_bridge(r, mapper), r.chance(0.8) ? 0 : 1, gen, xid, 1, 0, 0}); // Ethernet source: the mapper, a bridge, our own address (a reflecting switch), or a one-byte neighbour of it
             int fill = r.chance(0.3) ? (int)r.pickl({0, 1, 2, maxst, maxst - 1}) : (int)r.range(0, maxst);
-            if (maxst > 300 && r.chance(0.5)) fill = std::min(maxst, (int)r.pickl({254, 255, 256, 257, 510, 511, 512, 513, 767, 768, 1023, 1024, 1279, 1280})); // with our address inserted: counts around multiples of 256
+            if (huge) fill = std::min((int)(n.mtu - 36) / 6 - 1, (int)r.pickl({9998, 9999, 10000, 10001, 10900}));
+            else if (maxst > 300 && r.chance(0.5)) fill = std::min(maxst, (int)r.pickl({254, 255, 256, 257, 510, 511, 512, 513, 767, 768, 1023, 1024, 1279, 1280})); // with our address inserted: counts around multiples of 256
             int pos;
             switch (r.below(5)) { case 0: pos = -1; break; case 1: pos = 0; break; case 2: pos = fill; break; case 3: pos = fill / 2; break; default: pos = (int)r.range(0, fill); break; }
             if (r.chance(0.08)) { o.a[5] = 2; }
@@ -687,6 +692,7 @@ static Plan gen_C11(uint64_t seed, Rng &r) {
 static void api_prelude(Plan &p, Rng &r) {
     p.api_world = true;
     p.t0 = r.chance(0.04) ? (uint64_t)r.pickl({0, 0, 1, 100, 500, 999}) : (uint64_t)r.range(1, 5000) * 1000; // API walks too may start in the clock's first second
+
     NodeCfg n;
     n.glue = GLUE_DARWIN; n.mtu = 1500; n.attr_seed = r.next() | 1;
     p.nodes.push_back(n);
@@ -800,6 +806,13 @@ static Plan gen_C13(uint64_t seed, Rng &r) {
             p.ops.push_back(mk(OP_A_SETR, 0, {r2}));
             p.ops.push_back(mk(OP_A_BLOCKEND, 0, {}));
             if (r.chance(0.3)) { p.ops.push_back(mk(OP_A_HEARD, 0, {r.range(1, 400)})); p.ops.push_back(mk(OP_A_ADV, 0, {r.range(300, 700)})); p.ops.push_back(mk(OP_A_TICK, 0, {})); }
+            if (r.chance(0.1)) { // no tick for about 2^31 / 2^32 ms; the session is refreshed just before the late tick
+                p.ops.push_back(mk(OP_A_TADD, 0, {0, 5})); p.ops.push_back(mk(OP_A_DISCBOOK, 0, {})); p.ops.push_back(mk(OP_A_ADV, 0, {r.range(100, 400)})); p.ops.push_back(mk(OP_A_TICK, 0, {}));
+                p.ops.push_back(mk(OP_A_HEARD, 0, {r.range(1, 30)}));
+                p.ops.push_back(mk(OP_A_ADV, 0, {((int64_t)1 << (31 + (int)r.below(2))) + r.range(-300, 2000)}));
+                p.ops.push_back(mk(OP_A_TADD, 0, {0, 6}));
+                p.ops.push_back(mk(OP_A_TICK, 0, {}));
+            }
             if (r.chance(0.25)) { // an enumeration that ends because the mapper acknowledged us (not by Reset or expiry), directly followed by a new one
                 p.ops.push_back(mk(OP_A_TADD, 0, {0, 5}));
                 p.ops.push_back(mk(OP_A_DISCBOOK, 0, {}));
@@ -839,6 +852,11 @@ static Plan gen_C13(uint64_t seed, Rng &r) {
             int64_t cnt = r.chance(0.5) ? r.pickl({1, 9, 10, 14, 15, 16, 100}) : (r.chance(0.8) ? r.range(1, 3000) : r.range(3000, 70000));
             p.ops.push_back(mk(OP_HELLO, (uint32_t)r.range(0, 400), {(int64_t)r.range(4, 7), rnd_gen(r), 0, cnt, cnt <= 3000 && r.chance(0.5) ? r.range(1, 280) : 0, 0}));
             if (r.chance(0.3)) p.ops.push_back(mk(OP_STALL, 1, {0, r.range(100, 900)}));
+            if (r.chance(0.06)) { // a very long stall (around 2^31 / 2^32 ms); a Discover waiting in the socket buffer refreshes the session before the late tick
+                p.ops.push_back(mk(OP_STALL, 1, {0, ((int64_t)1 << (31 + (int)r.below(2))) + r.range(-300, 2000)}));
+                Op d4 = mk(OP_DISCOVER, 50, {0, -1, 0, 0x0909, rnd_seq(r), 1, 2, -1}); d4.blob = {0}; p.ops.push_back(d4);
+                p.ops.push_back(mk(OP_HELLO, (uint32_t)r.range(1, 100), {(int64_t)r.range(4, 7), rnd_gen(r), 0, r.range(1, 30), r.range(1, 20), 0}));
+            }
             if (r.chance(0.3)) { Op d2 = mk(OP_DISCOVER, (uint32_t)r.range(100, 900), {0, -1, 0, 0x0909, rnd_seq(r), 1, 2, -1}); d2.blob = {0}; p.ops.push_back(d2); }
             if (r.chance(0.3)) { // the mapper acknowledges us: the enumeration ends by completion; another mapper opens a new one while our last Hello is less than a second old
                 Op ack = mk(OP_DISCOVER, (uint32_t)r.range(900, 2600), {0, -1, 0, 0x0909, rnd_seq(r), 1, 2, 0}); ack.blob = {0}; p.ops.push_back(ack);
@@ -896,6 +914,7 @@ static Plan gen_C15(uint64_t seed, Rng &r, uint64_t index) {
         p.ops.push_back(mk(OP_A_SESS, 0, {e}));
         return p;
     }
+    if (r.chance(0.12)) { p.call_us = (uint32_t)r.pickl({100, 500, 1000, 2000, 3000}); if (r.chance(0.6)) p.t0 = p.t0 / 1000 * 1000 + (uint64_t)r.range(994, 999); } // the port's log calls take time (the clock moves while the core runs); walks that sit just below a second boundary
     int nops = (int)r.range(5, 100);
     for (int i = 0; i < nops; i++) {
         int x = (int)r.below(10);
